@@ -148,7 +148,9 @@ pub fn run_mt(id: &str, toks: &[&str]) -> String {
             for k in 0..lines {
                 // lengths vary around <len> so that lines straddle buffer and message capacities
                 let pad = "x".repeat((len + (k * 7 + t * 3) % 11).saturating_sub(10));
-                let msg = format!("T{t}-{k}-{pad}");
+                // thread 0 logs single letters A..Z: a line that is exactly "F" or "S" must be a line like any other
+                // (the asynchronous writers once took such content for their flush / shutdown messages)
+                let msg = if t == 0 { ((b'A' + (k % 26) as u8) as char).to_string() } else { format!("T{t}-{k}-{pad}") };
                 log.log(&log::Record::builder().level(log::Level::Info).target("t").args(format_args!("{msg}")).build());
                 if k % 17 == t {
                     std::thread::yield_now();
